@@ -219,11 +219,11 @@ theorem isTempAssign_eq (op : String) (l r : Node) (sp : Span) :
       | _ => simp
     · simp [hop]
 
-theorem noBlk_ident (nm : Name) (sp : Span) : noBlk (.ident nm sp) = true := by simp [noBlk_eq, isBlockNode, kids]
+theorem noBlk_identE (nm : Name) (sp : Span) : noBlk (.ident nm sp) = true := by simp [noBlk_eq, isBlockNode, kids]
 
 theorem BRg.isTempIdentB {a b : Node} (h : BRg a b) : IastModel.isTempIdentB b = IastModel.isTempIdentB a := by
   cases a with
-  | ident nm isp => rw [BRg_noBlk (noBlk_ident _ _) h]
+  | ident nm isp => rw [BRg_noBlk (noBlk_identE _ _) h]
   | block ss sp => rcases h.block_inv with rfl | ⟨ss', rfl, _⟩ <;> rfl
   | _ =>
     obtain ⟨ks', rfl, _⟩ := h.inv rfl
@@ -231,7 +231,7 @@ theorem BRg.isTempIdentB {a b : Node} (h : BRg a b) : IastModel.isTempIdentB b =
 
 theorem BRg.tempTarget {a b : Node} (h : BRg a b) : tempTarget? b = tempTarget? a := by
   cases a with
-  | ident nm isp => rw [BRg_noBlk (noBlk_ident _ _) h]
+  | ident nm isp => rw [BRg_noBlk (noBlk_identE _ _) h]
   | block ss sp => rcases h.block_inv with rfl | ⟨ss', rfl, _⟩ <;> rfl
   | _ =>
     obtain ⟨ks', rfl, _⟩ := h.inv rfl
@@ -247,9 +247,9 @@ theorem BRg.isTempAssign {a b : Node} (h : BRg a b) : IastModel.isTempAssign b =
     obtain ⟨ks', rfl, _⟩ := h.inv rfl
     simp [IastModel.isTempAssign, withKids]
 
-theorem noBlk_pname (nm : String) (sp : Span) : noBlk (.pname nm sp) = true := by simp [noBlk_eq, isBlockNode, kids]
-theorem noBlk_lit {e : Node} (h : e.isLit = true) : noBlk e = true := by
+theorem noBlk_pnameE (nm : String) (sp : Span) : noBlk (.pname nm sp) = true := by simp [noBlk_eq, isBlockNode, kids]
+theorem noBlk_litE {e : Node} (h : e.isLit = true) : noBlk e = true := by
   cases e <;> simp_all [Node.isLit, noBlk_eq, isBlockNode, kids]
-theorem noBlk_tempIdent (k : Nat) : noBlk (tempIdent k) = true := noBlk_ident _ _
+theorem noBlk_tempIdentE (k : Nat) : noBlk (tempIdent k) = true := noBlk_identE _ _
 
 end IastModel
